@@ -255,7 +255,7 @@ class World:  # pylint: disable=too-many-instance-attributes,too-many-public-met
         self.oracle = oracle  # callable(world, side, op, info) after every step
         self.sides = {}
         self.step_index = -1
-        self.stats = {'ops': {}, 'skipped': 0, 'short_reads': 0}
+        self.stats = {'ops': {}, 'skipped': 0, 'short_reads': 0, 'pending_batches': 0}
         self.last_info = None
         os.makedirs(os.path.join(root, 'inputs'), exist_ok=True)
         self._input_counter = 0
@@ -444,6 +444,21 @@ class World:  # pylint: disable=too-many-instance-attributes,too-many-public-met
             'no_holes_read_twice': bool(op.get('read_twice', True)),
             'do_fsync': bool(op.get('do_fsync', True)),
         }
+        pending_datas = []
+        if op.get('pending') and datas:
+            # the documented "many calls, one commit" pattern: earlier calls of the same logical batch pass
+            # do_commit=False, the last one (below) commits; every key handed back must be stored once it returned
+            for j, batch in enumerate(op['pending']):
+                pdatas = [self.content(c) for c in batch]
+                if j % 2 == 0:
+                    pgot = handle.add_objects_to_pack(pdatas, do_commit=False, **kwargs)
+                else:
+                    pgot = [handle.add_streamed_object_to_pack(io.BytesIO(d), do_commit=False, **kwargs) for d in pdatas]
+                pexp = [hkey(side.hash_type, d) for d in pdatas]
+                if list(pgot) != pexp:
+                    self.fail('wrong-key', f'add_pack (do_commit=False) returned {pgot} expected {pexp}')
+                pending_datas += pdatas
+            self.stats['pending_batches'] += len(op['pending'])
         recorder = CallbackRecorder() if op.get('callback') else None
         api = op.get('api', 'objects')
         via = op.get('via', 'bytesio')
@@ -474,6 +489,8 @@ class World:  # pylint: disable=too-many-instance-attributes,too-many-public-met
                 )
         if list(got) != expected:
             self.fail('wrong-key', f'add_pack api={api} returned {got} expected {expected}')
+        datas = pending_datas + datas
+        expected = [hkey(side.hash_type, d) for d in datas]
         already = [k for k in expected if k in side.model]
         for key, data in zip(expected, datas):
             side.model[key] = data
